@@ -869,6 +869,13 @@ func runEncrypt(rc *RunCtx, prop string) {
 				}
 				continue
 			}
+			if effectiveAllNone(overrides) {
+				// no effective operation: the event is forwarded as is, nothing is inspected
+				if out != ev {
+					rc.Failf(prop+".noop-identity", "", "with no effective operation the very same event must be forwarded, got %p for %p", out, ev)
+				}
+				continue
+			}
 			if fw != nil && fw.fired > firedBefore {
 				rc.Failf("C09.failed-open", "wrapper-failure", "the wrapper failed %d time(s) during this event, yet Process returned (event, nil): fails open", fw.fired-firedBefore)
 				continue
